@@ -174,12 +174,6 @@ RecOK(e) == /\ e.open = "ok" /\ e.geterr = "ok"
 \* F24: a power failure that tears a write (cut strictly inside the bytes of one write call): Open reports an
 \*      error instead of recovering the prefix before the torn record (standard-I/O back-end)
 DevTorn(e) == "F24" \in Known /\ Torn(e) /\ cfg.io = "std" /\ e.open \notin {"ok", "panic", "stuck"}
-\* F25: a torn multi-block record whose surviving chunks end exactly at a block boundary is skipped silently
-\*      (Open succeeds, mapping is an admissible prefix), but the torn bytes stay in the file: the next append is
-\*      glued to them and a later Open fails
-DevTornGlue(e) == /\ "F25" \in Known /\ Torn(e) /\ cfg.io = "std" /\ e.open = "ok" /\ e.geterr = "ok"
-                  /\ AsMap(e.vals) \in Allowed(e.proc) /\ e.cont.did /\ e.cont.put = "ok"
-                  /\ e.cont.reopen \notin {"ok", "stuck"}
 \* F26: under the memory-mapped back-end every image that was not produced by a clean Close has its files
 \*      extended with zeros to the mapping size; Open reports an error
 DevMMap(e) == "F26" \in Known /\ cfg.io = "mmap" /\ ~e.clean /\ e.open \notin {"ok", "panic", "stuck"}
@@ -189,7 +183,6 @@ TCrashRec ==
   /\ LET e == E IN
      IF ~Chk("recok") \/ RecOK(e) THEN TRUE
      ELSE IF DevTorn(e) THEN Use("F24")
-     ELSE IF DevTornGlue(e) THEN Use("F25")
      ELSE IF DevMMap(e) THEN Use("F26")
      ELSE Fail("recok")
   /\ UNCHANGED <<n, cfg, written, synced, wends, pend, batch, maps, ends, plain, st>>
